@@ -1528,11 +1528,25 @@ fn lean_case(seed: u64, rep: &mut Report, drv: &mut Driver) {
             format!("{},{},{},{}", r0, c0, r0 + rng.below(1000) as u32, c0 + rng.below(100) as u32)
         }
     };
-    let mut req = format!("render {} {}", pfx as u8, dim);
+    // layout choices beyond references: sibling elements, white space, per-row / per-cell prefixes, attribute
+    // order and inert attributes, text in pieces (see Spec/XlsxSheet.lean `Layout`)
+    let mut flags = String::new();
+    for f in ['b', 'a', 'x', 'w'] {
+        if rng.chance(1, 2) {
+            flags.push(f);
+        }
+    }
+    if flags.is_empty() {
+        flags.push('-');
+    }
+    let mixed = rng.chance(1, 2);
+    let mut req = format!("render {} {} {}", pfx as u8, dim, flags);
+    rep.count(&format!("lean:flags:{flags}"));
     let mut cur_row: Option<u32> = None;
     for p in &pos {
         if cur_row != Some(p.0) {
-            req.push_str(&format!(" {},{}", p.0, rng.chance(1, 2) as u8));
+            let rp = if mixed { rng.chance(1, 2) } else { pfx };
+            req.push_str(&format!(" {},{},{},{}", p.0, rng.chance(1, 2) as u8, rp as u8, rng.below(3)));
             cur_row = Some(p.0);
         }
         let style: Option<u32> = if rng.chance(1, 3) { Some(rng.below(5) as u32) } else { None };
@@ -1568,15 +1582,19 @@ fn lean_case(seed: u64, rep: &mut Report, drv: &mut Driver) {
                 ("d".to_string(), hex(s.as_bytes()), XVal::IsoDate(s))
             }
         };
+        let cp = if mixed { rng.chance(1, 2) } else { pfx };
         req.push_str(&format!(
-            "/{},{},{},{},{},{},{}",
+            "/{},{},{},{},{},{},{},{},{},{}",
             p.1,
             rng.chance(1, 2) as u8,
             rng.chance(1, 4) as u8,
             style.map(|s| hex(s.to_string().as_bytes())).unwrap_or("!".into()),
             formula.as_ref().map(|f| hex(f.as_bytes())).unwrap_or("!".into()),
             kind,
-            payload
+            payload,
+            cp as u8,
+            rng.below(4),
+            rng.chance(1, 2) as u8
         ));
         let mut c = XCell::new(val);
         c.style = style;
@@ -1596,6 +1614,7 @@ fn lean_case(seed: u64, rep: &mut Report, drv: &mut Driver) {
             }
             "e" if p.len() == 2 => evs.push(Ev::End(nm(p[1]))),
             "t" if p.len() == 2 => evs.push(Ev::Text(hex_to_string(p[1]))),
+            "o" => evs.push(Ev::Other("<!--c-->".into())),
             _ => {
                 rep.fail("model_vs_spec", "render-protocol", &input, "", &reply, "");
                 return;
@@ -1604,7 +1623,8 @@ fn lean_case(seed: u64, rep: &mut Report, drv: &mut Driver) {
     }
     // the root element needs its namespace declaration to be XML; the readers ignore it
     if let Some(Ev::Start(_, a)) = evs.first_mut() {
-        a.push((if pfx { "xmlns:x".to_string() } else { "xmlns".to_string() }, xlsxw::NS_MAIN.to_string()));
+        a.push(("xmlns".to_string(), xlsxw::NS_MAIN.to_string()));
+        a.push(("xmlns:x".to_string(), xlsxw::NS_MAIN.to_string()));
     }
     let mut r2 = rng.fork();
     sh.raw_xml = Some(xlsxw::serialize(&evs, || r2.chance(1, 2)));
